@@ -507,7 +507,14 @@ def run_c20(case):
         for direction in ("DOWNWARD", "UPWARD"):
             before = snap(kb)
             impl.take_log()
-            steps, r = kb.model.infer(direction=getattr(L.Direction, direction), source=kb.obj[src])
+            # after the full upward pass through infer(Direction.X, source=), after the other-source run through the
+            # convenience wrappers Model.downward(source=) / Model.upward(source=)
+            if first == "full-up":
+                steps, r = kb.model.infer(direction=getattr(L.Direction, direction), source=kb.obj[src])
+            elif direction == "DOWNWARD":
+                steps, r = kb.model.downward(source=kb.obj[src])
+            else:
+                steps, r = kb.model.upward(source=kb.obj[src])
             log = impl.take_log()
             called = kb.calls(log, direction.lower())
             lines.append(f"pass {'down' if direction == 'DOWNWARD' else 'up'} {ids(called)}"); out.append("r " + q(impl.amount(r)))
